@@ -449,6 +449,52 @@ theorem poolAdds_delDvs (l : List (Key × Nat)) : poolAdds (l.map (fun p => Op.d
   | nil => rfl
   | cons _ r ih => simpa [poolAdds] using ih
 
+theorem applyOps_dels_plain : ∀ (dels : List Key) (s : Snap),
+    applyOps s (dels.map Op.del) = some { s with rs := s.rs.filter (fun x => !dels.contains x) }
+  | [], s => by
+      have ft : ∀ l : List Key, l.filter (fun _ => true) = l := by
+        intro l; induction l <;> simp_all
+      cases s
+      simp [applyOps, ft]
+  | d :: r, s => by
+      simp only [List.map_cons, applyOps, applyOp]
+      rw [applyOps_dels_plain r]
+      simp only [List.filter_filter]
+      congr 2
+      apply List.filter_congr
+      intro x _
+      simp only [List.contains_cons, Bool.not_or, bne, Bool.and_comm]
+
+/-- **A compaction pass over a SUBSET of a table's row-sets** (size-based selection: an oversized
+row-set is left alone): whatever `sel` is and whatever snapshot `sp` the delete vectors to delete
+are read from, the changeset `AddRowSet new ++ DeleteRowSet sel ++ DeleteDV (dvs of sel)` leaves
+every row-set that was NOT selected in the snapshot, with exactly the deleted positions it had —
+the delete vectors of unselected row-sets are unchanged, so no row deleted from them comes back. -/
+theorem compact_subset_keeps_other_dvs {S snap' sp : Snap} {t n : Nat} {rows : List Int}
+    {sel : List Key}
+    (h : applyOps S (.add (t, n) rows :: (sel.map Op.del ++ dvDels sp sel)) = some snap') :
+    ∀ key, key ∉ sel → (key ∈ S.rs → key ∈ snap'.rs) ∧ deadPos snap' key = deadPos S key := by
+  simp only [applyOps, applyOp] at h
+  rw [applyOps_append, applyOps_dels_plain, dvDels_eq] at h
+  obtain ⟨hrs, hdead⟩ := applyOps_delDvs _ h
+  intro key hk
+  constructor
+  · intro hm
+    rw [hrs]
+    apply List.mem_filter.mpr
+    refine ⟨List.mem_cons_of_mem _ hm, ?_⟩
+    simpa using hk
+  · exact hdead key (fun p hp heq => hk (heq ▸ mem_dvPairs hp))
+
+-- non-vacuity: row-set (0,0) carries a delete vector and is not selected; (0,1), (0,2) are
+example : ∀ snap', applyOps { rs := [(0,2), (0,1), (0,0)], dvs := [((0,0), 0, [1]), ((0,1), 1, [0])] }
+      (.add (0,3) [7, 8] :: ([(0,1), (0,2)].map Op.del
+        ++ dvDels { rs := [(0,2), (0,1), (0,0)], dvs := [((0,0), 0, [1]), ((0,1), 1, [0])] } [(0,1), (0,2)]))
+      = some snap' → (0,0) ∈ snap'.rs ∧ deadPos snap' (0,0) = [1] := by
+  intro snap' h
+  have := compact_subset_keeps_other_dvs h (0,0) (by decide)
+  exact ⟨this.1 (by decide), this.2.trans (by decide)⟩
+
 /-- what the tables hold over a snapshot that has the new row-set instead of the selected ones
 and the same deleted positions on every row-set that was not selected -/
 theorem rows_after_compaction {pool pool2 : List (Key × List Int)} {S snap' : Snap} {t n : Nat}
